@@ -176,6 +176,21 @@ def run(ctx):
                 if dV.shape == (n, N, N):
                     lines.append(["basis", N, n, 1] + fbs(cf) + fbs(prev._reference) + fbs(w) + [fb(1e-10)] + fbs(dV))
                     keep.append((spec, el, prev, cf, N, n))
+    # directed: a smooth path on the built-in truncated (AdiabaticModel_) model through the stretch where LAPACK's native sign of an
+    # eigenvector changes (x in [-6.2, -4.8] for Shin-Metiu): every point continued from the previous one
+    for j in range(ctx.budget(2, 10)):
+        spec = {"name": "shin-metiu", "kwargs": {"nel": 32, "nstates": int(rng.integers(3, 6))}}
+        xs = np.linspace(-6.2 - 0.05 * rng.random(), -4.8 + 0.05 * rng.random(), 16)
+        if j % 2 == 1:
+            xs = xs[::-1]
+        ops = [(k, [float(x_)], (k - 1 if k else None), "model" if k % 3 else "chained") for k, x_ in enumerate(xs)]
+        ops[0] = (0, ops[0][1], None, "model")
+        a = {"spec": spec, "ops": [list(o) for o in ops]}
+        ok, obs, req, text = oracle_script(a)
+        ctx.case(("shin-metiu-path", spec["kwargs"]["nstates"], j % 2))
+        ctx.count("directed_paths_through_native_sign_changes")
+        if not ok:
+            ctx.oracle_fail("update-script:shin-metiu", "script", a, obs, req, text)
     outs = ctx.model.run(lines)
     for (spec, el, prev, cf, N, n), o in zip(keep, outs):
         vals = np.array([unfb(t) for t in o[1:1 + N * N]]).reshape(N, N)
